@@ -116,8 +116,38 @@ fn is_rotation(m: M3) -> bool {
 pub fn c11(n: u64, seed: u64) {
     let mut r = R(seed);
     let t = [Tally::new("c11.angle_cos_range_sym"), Tally::new("c11.angle2d_signed"), Tally::new("c11.normalize_len"),
-             Tally::new("c11.project_on")];
-    for _ in 0..n {
+             Tally::new("c11.project_on"), Tally::new("c11.distance_is_magnitude_of_difference"), Tally::new("c11.angle_parallel_antiparallel")];
+    for i in 0..n {
+        {
+            // distance(a, b) is the magnitude of the difference, bit for bit -- also when the coordinates are large
+            // compared with the separation (an algebraically equal expansion |a|^2 + |b|^2 - 2 a.b cancels there)
+            let big = if i % 2 == 0 { 0.0 } else { [1.0e8, 3.0e7, 94906267.0, 1000.5][(i / 2 % 4) as usize] };
+            let (a, b) = (r.v4(), r.v4());
+            let (a, b) = (a + cgmath::Vector4::from_value(big), b * 1e-3 + a + cgmath::Vector4::from_value(big));
+            let (p3, q3) = (cgmath::Point3::new(a.x, a.y, a.z), cgmath::Point3::new(b.x, b.y, b.z));
+            let (p2, q2) = (cgmath::Point2::new(a.x, a.y), cgmath::Point2::new(b.x, b.y));
+            let (p1, q1) = (cgmath::Point1::new(a.x), cgmath::Point1::new(b.x));
+            let (qa, qb) = (Q::new(a.w, a.x, a.y, a.z), Q::new(b.w, b.x, b.y, b.z));
+            let (f3, g3) = (cgmath::Point3::new(a.x as f32, a.y as f32, a.z as f32), cgmath::Point3::new(b.x as f32, b.y as f32, b.z as f32));
+            let ok = p3.distance2(q3).to_bits() == (q3 - p3).magnitude2().to_bits() && p3.distance(q3).to_bits() == (q3 - p3).magnitude().to_bits()
+                && p2.distance2(q2).to_bits() == (q2 - p2).magnitude2().to_bits() && p2.distance(q2).to_bits() == (q2 - p2).magnitude().to_bits()
+                && p1.distance2(q1).to_bits() == (q1 - p1).magnitude2().to_bits() && p1.distance(q1).to_bits() == (q1 - p1).magnitude().to_bits()
+                && a.distance2(b).to_bits() == (b - a).magnitude2().to_bits() && a.distance(b).to_bits() == (b - a).magnitude().to_bits()
+                && a.truncate().distance2(b.truncate()).to_bits() == (b.truncate() - a.truncate()).magnitude2().to_bits()
+                && qa.distance2(qb).to_bits() == (qb - qa).magnitude2().to_bits() && qa.distance(qb).to_bits() == (qb - qa).magnitude().to_bits()
+                && f3.distance2(g3).to_bits() == (g3 - f3).magnitude2().to_bits()
+                && p3.distance2(q3) >= 0.0 && f3.distance2(g3) >= 0.0;
+            t[4].rec(ok, || format!("a={:?} b={:?}: Point3 distance2={:e} vs |b-a|^2={:e}; f32 {:e} vs {:e}", a, b, p3.distance2(q3), (q3 - p3).magnitude2(),
+                                     f3.distance2(g3), (g3 - f3).magnitude2()));
+            // exactly parallel / antiparallel pairs: angle 0 and pi
+            let u = if i % 3 == 0 { V3::new(1.0, 0.0, 0.0) } else if i % 3 == 1 { V3::new(1.0, 2.0, 3.0) } else { let w = r.v3(); V3::new(w.x.round() + 0.5, w.y.round(), w.z.round() - 0.5) };
+            let k = [2.0, 0.5, 1.0, 4.0][(i % 4) as usize];
+            let okp = close(u.angle(u * k).0, 0.0) && close(u.angle(u * -k).0, PI) && close((u * -k).angle(u).0, PI)
+                && (u.extend(0.5).angle(u.extend(0.5) * -k).0 - PI).abs() < 1e-6 /* acos is ill-conditioned at -1 */ && close(u.truncate().angle(u.truncate() * -k).0.abs(), PI)
+                && close(u.truncate().angle(u.truncate() * k).0, 0.0);
+            t[5].rec(okp, || format!("u={:?} k={}: angle(u, ku)={} angle(u, -ku)={} angle(-ku,u)={} v4={} v2={} v2p={}", u, k, u.angle(u * k).0, u.angle(u * -k).0,
+                (u * -k).angle(u).0, u.extend(0.5).angle(u.extend(0.5) * -k).0, u.truncate().angle(u.truncate() * -k).0, u.truncate().angle(u.truncate() * k).0));
+        }
         let (u3, v3) = (r.v3(), r.v3());
         let (u4, v4) = (r.v4(), r.v4());
         let a3 = u3.angle(v3).0;
